@@ -173,15 +173,12 @@ func listSplitsChan(repo, diamondID string, stores context2.Stores, opts ...Opti
 	keysChan := make(chan keyBatchEvent, 1)
 
 	iterator := func(next string) ([]string, string, error) {
-		return basenameKeyFilter("split-")(
-			// restrain result to split descriptors (in any state)
-			GetSplitStore(stores).KeysPrefix(context.Background(), next, model.GetArchivePathPrefixToSplits(repo, diamondID), "", settings.batchSize),
-		)
+		return GetSplitStore(stores).KeysPrefix(context.Background(), next, model.GetArchivePathPrefixToSplits(repo, diamondID), "", settings.batchSize)
 	}
 
-	// starting keys retrieval
+	// starting keys retrieval: restrain result to split descriptors (in any state)
 	wg.Add(1)
-	go fetchKeys(iterator, unfilteredKeysChan, doneWithKeysChan, &wg) // scan for key batches
+	go fetchKeys(iterator, unfilteredKeysChan, doneWithKeysChan, &wg, basenameKeyFilter("split-")) // scan for key batches
 
 	// keys state filtering & merging
 	wg.Add(1)
